@@ -148,7 +148,9 @@ def handleSess (s : Sess) (line : String) : Sess × String :=
       | some louds =>
         let spec := b.matchIndicesSpec name hits
         let log := s.log.reverse
-        let doc := (List.range s.bitLength).filter fun i => docMatches log i name hits
+        -- docMatches is trivially false for an index no AddSet call addressed: evaluate it on the others
+        let used := log.map (·.idx)
+        let doc := (List.range s.bitLength).filter fun i => used.contains i && docMatches log i name hits
         let extra := (if spec == louds then "" else s!" spec={idxStr spec}") ++
           (if !plainName name || doc == louds then "" else s!" doc={idxStr doc}")
         (s, s!"m={idxStr louds}{extra}")
